@@ -176,5 +176,9 @@ class Token:
         """Convert a dict to a Token."""
         token = cls(**dct)
         if token.children:
-            token.children = [cls.from_dict(c) for c in token.children]  # type: ignore[arg-type]
+            # `as_dict(children=False)` leaves the children as tokens
+            token.children = [
+                c if isinstance(c, Token) else cls.from_dict(c)  # type: ignore[arg-type]
+                for c in token.children
+            ]
         return token
